@@ -238,6 +238,7 @@ pub fn run(op: &str, e: &Value, ctx: &mut Ctx) -> Result<Value, String> {
             };
             Ok(json!({"lanes": lanes_obs(&l)}))
         }
+        #[cfg(feature = "ed")]
         "const.public" => {
             use curve25519_dalek::constants as k;
             let tors: Vec<Value> = k::EIGHT_TORSION.iter().map(ops_edwards::ed_obs).collect();
